@@ -12,7 +12,63 @@ def run(chk):
     ok = core.standard_proof_phase(chk, "C14", gen_needed=())
     chk.notes["system_theorems"] = ['c14_no_sbatch_after_cancel', 'c14_monitor', 'c14_results_kept']
     chk.notes["partial"] = "'every active batch is asked to be canceled' and 'jobs that never ran are reported missing' are decided on impl by oracles; resubmission (which clears the flag) is outside the system model"
+    cancel_without_active_batches(chk)
     syscheck.system_phase(chk, "C14", MODES, n_quick=150, n_thorough=3000, also=())
+
+
+def cancel_without_active_batches(chk):
+    """Directed: cancel-jobs' inner steps on an incomplete submission that has no active batch recorded
+    (all batches of the last round already ended and were dropped, jobs still unsubmitted): the
+    submission must still end up marked canceled, and a later round must submit nothing."""
+    import logging
+    import os
+    import shutil
+    import tempfile
+    logging.disable(logging.CRITICAL)
+    import jade.hpc.slurm_manager as sm
+    from jade.jobs.cluster import Cluster
+    from jade.jobs.job_submitter import JobSubmitter
+    from harness import jadeenv
+    sc = {"jobs": [{"name": n, "deps": [], "group": "g", "est": 1, "rc": 0} for n in ("a", "b", "c")],
+          "groups": [{"name": "g", "size": 1, "time": False, "try": True, "nproc": 1}], "max_nodes": 1}
+    tmp = tempfile.mkdtemp(prefix="verif_c14_")
+    out = os.path.join(tmp, "out")
+    os.makedirs(out)
+    fake = jadeenv.FakeSlurm()
+    orig = sm.run_command
+    sm.run_command = fake
+    saved = JobSubmitter._save_repository_info
+    JobSubmitter._save_repository_info = lambda self, reg: None
+    try:
+        cfg = jadeenv.make_config(sc)
+        mgr = JobSubmitter.create(cfg, output=out)
+        cluster = Cluster.create(out, mgr.config)          # incomplete, no hpc ids yet, this process is submitter
+        from jade.jobs.results_aggregator import ResultsAggregator
+        ResultsAggregator.create(out)
+        JobSubmitter.load(out).cancel_jobs(cluster)        # what the cancel-jobs command does once promoted
+        cluster.demote_from_submitter()
+        c2, _ = Cluster.deserialize(out, deserialize_jobs=True)
+        chk.count(("cancel-without-active", 0))
+        if not c2.is_canceled():
+            chk.violation("cancel-did-not-mark", "cancel-jobs on an incomplete submission without active batches did not mark it canceled "
+                          "(the remaining jobs are submitted by the next round)", {"scenario": sc, "steps": ["create", "cancel_jobs", "demote", "reload"],
+                                                                                  "is_canceled": c2.is_canceled(), "hpc_job_ids": list(c2.job_status.hpc_job_ids)})
+        # the next round must not submit
+        c3, promoted = Cluster.deserialize(out, try_promote_to_submitter=True, deserialize_jobs=True)
+        n0 = len([x for x in fake.log if x[0] == "sbatch"])
+        try:
+            JobSubmitter.load(out).submit_jobs(c3)
+        finally:
+            c3.demote_from_submitter()
+        n1 = len([x for x in fake.log if x[0] == "sbatch"])
+        if n1 > n0:
+            chk.violation("sbatch-after-cancel", f"{n1 - n0} batches were handed to the HPC by a round after cancel-jobs",
+                          {"scenario": sc, "steps": ["create", "cancel_jobs", "demote", "try-submit round"], "sbatch_calls": fake.log[-3:]})
+        chk.oblige("directed: cancel without active batches marks the submission canceled and stops submission", True, "")
+    finally:
+        sm.run_command = orig
+        JobSubmitter._save_repository_info = saved
+        shutil.rmtree(tmp, ignore_errors=True)
 
 
 def replay(path):
